@@ -220,11 +220,48 @@ inline TACase decode_ta(const Raw& raw, const Limits& lim, bool denseNumbering, 
 	return c;
 }
 
+// LARGE flavour shared by the single-automaton harnesses (the construction C04 introduced): one case in 'every'
+// becomes an automaton of 20..150 states - a backbone of unary / binary rules through all states (so that every
+// state is productive and reachable from the last one) with the generated rules and final states stretched over
+// the state space; in the DENSE half every state also owns the same leaf and the backbone uses one symbol, so that
+// states are (nearly) totally ordered by simulation.  Hash containers of the library get rehashed, bit masks leave
+// their first word, free lists and relations reach four-digit sizes.  Returns "" for an ordinary case, else a tag.
+inline std::string enlarge(TACase& c, bool denseNumbering, uint32_t every = 24)
+{
+	if (c.header[7] % every != every - 1) return "";
+	const int n = 20 + static_cast<int>(c.header[6] % 131);
+	const bool dense = (c.header[6] / 256) % 2;
+	TA L;
+	L.add(0 /* a */, {}, 0);
+	for (int i = 1; i < n; ++i) {
+		const uint64_t m = mix(c.header[5], static_cast<uint64_t>(i));
+		if (dense) { L.add(4 /* g */, {i - 1}, i); L.add(0 /* a */, {}, i); if (m % 23 == 0) L.add(1 /* b */, {}, i); continue; }
+		if (m % 3 == 0) L.add(6 /* f */, {i - 1, static_cast<int>((m / 3) % static_cast<uint64_t>(i))}, i);
+		else L.add((m % 3 == 1) ? 4 /* g */ : 5 /* h */, {i - 1}, i);
+		if (m % 11 == 0) L.add(1 /* b */, {}, i);
+	}
+	for (auto& r : c.A.rules) {
+		Rule x = r;
+		x.par = (x.par * 17) % n;
+		for (auto& ch : x.ch) ch = (ch * 13) % n;
+		L.rules.insert(x);
+	}
+	L.finals.insert(n - 1);
+	for (int f : c.A.finals) L.finals.insert((f * 29) % n);
+	c.A = L;
+	c.n = n;
+	c.aux.clear();
+	for (int sy : {0, 1, 4, 5, 6}) if (std::find(c.syms.begin(), c.syms.end(), sy) == c.syms.end()) c.syms.push_back(sy);
+	c.num = make_numbering(c.header[3], c.n, denseNumbering);
+	c.order = shuffled(c.A.rules, c.header[4]);
+	return dense ? "large:20-150-states:dense" : "large:20-150-states";
+}
+
 // ------------------------------------------------------------------ pairs
-enum Strategy { INDEP = 0, SUPERSET, ABLATE, SPLIT, LEAFMISS, DETB, DEGENERATE, NSTRATEGIES, FANOUT = NSTRATEGIES };
+enum Strategy { INDEP = 0, SUPERSET, ABLATE, SPLIT, LEAFMISS, DETB, DEGENERATE, NSTRATEGIES, FANOUT = NSTRATEGIES, COVER };
 inline const char* strategy_name(int s)
 {
-	static const char* n[] = {"indep", "superset", "ablate", "split", "leafmiss", "detB", "degenerate", "fanout"};
+	static const char* n[] = {"indep", "superset", "ablate", "split", "leafmiss", "detB", "degenerate", "fanout", "cover"};
 	return n[s];
 }
 
@@ -268,7 +305,8 @@ inline PairCase decode_pair(const Raw& raw, const Limits& lim, const std::vector
 		pick -= weights[static_cast<size_t>(s)];
 	}
 	if (lim.fanoutEvery > 0 && (h[0] / 1024) % static_cast<uint32_t>(lim.fanoutEvery) == 1) c.strategy = FANOUT;
-	c.nA = 1 + static_cast<int>(h[1] % static_cast<uint32_t>(c.strategy == FANOUT ? std::min(lim.maxStates, 3) : lim.maxStates));
+	if (lim.fanoutEvery > 0 && (h[0] / 1024) % static_cast<uint32_t>(lim.fanoutEvery) == 2) c.strategy = COVER;
+	c.nA = 1 + static_cast<int>(h[1] % static_cast<uint32_t>(c.strategy >= FANOUT ? std::min(lim.maxStates, 3) : lim.maxStates));
 	c.nB = 1 + static_cast<int>(h[2] % static_cast<uint32_t>(lim.maxStates));
 	c.syms = alphabet(h[3], lim);
 	const uint32_t par = h[6];
@@ -379,6 +417,41 @@ inline PairCase decode_pair(const Raw& raw, const Limits& lim, const std::vector
 				for (int j = 0; j < K; ++j) if ((mask >> j) & 1) c.B.finals.insert(K * f + j);
 			}
 			if (par % 4 == 3) for (auto r : noise.rules) c.B.rules.insert(r);
+			break;
+		}
+		case COVER: {
+			// B = K ALIGNED copies of A (copy j of a rule uses copy j of every state), the leaf rules and final states
+			// DISTRIBUTED over the copies, plus a few cross-wired copies of non-leaf rules: a state of A is then covered
+			// by the union of its copies only, each copy accepting the trees over "its" leaves - the situation in which
+			// inclusion algorithms must combine several macro-states (and may prove things under assumptions that fail later)
+			const int K = 2 + static_cast<int>(par % 2);
+			c.nB = K * c.nA;
+			for (auto& r : c.A.rules) {
+				const uint32_t ax = auxA[r];
+				if (r.ch.empty()) {
+					uint32_t mask = ax % (1u << K);
+					if (mask == 0) mask = 1u << (ax / 8 % static_cast<uint32_t>(K));
+					for (int j = 0; j < K; ++j) if ((mask >> j) & 1) c.B.rules.insert(Rule{r.sym, {}, K * r.par + j});
+					continue;
+				}
+				for (int j = 0; j < K; ++j) {
+					if ((ax >> (4 + j)) % 8 == 7 && (ax % 16) == 0) continue;      // rarely a copy lacks the rule
+					Rule n{r.sym, {}, K * r.par + j};
+					for (int chd : r.ch) n.ch.push_back(K * chd + j);
+					c.B.rules.insert(n);
+				}
+				if (ax % 3 == 0) {
+					uint64_t v = mix(ax, 17);
+					Rule n{r.sym, {}, K * r.par + static_cast<int>(v % K)};
+					for (size_t i = 0; i < r.ch.size(); ++i) { v /= K; n.ch.push_back(K * r.ch[i] + static_cast<int>(v % K)); }
+					c.B.rules.insert(n);
+				}
+			}
+			for (int f : c.A.finals) {
+				uint32_t mask = auxFinA[f] % (1u << K);
+				if (mask == 0 || auxFinA[f] % 3 == 0) mask = (1u << K) - 1;
+				for (int j = 0; j < K; ++j) if ((mask >> j) & 1) c.B.finals.insert(K * f + j);
+			}
 			break;
 		}
 		case LEAFMISS: {
